@@ -34,9 +34,9 @@ type c11Case struct {
 	Jitter   uint64 `json:"jitter_seed"`
 }
 
-func (c11) ID() string            { return "C11" }
-func (c11) Level() string         { return "fault_enumeration" }
-func (c11) RaceIsViolation() bool { return true }
+func (c11) ID() string                 { return "C11" }
+func (c11) Level() string              { return "fault_enumeration" }
+func (c11) RaceIsViolation() bool      { return true }
 func (c11) Exhaustive(c *run.Ctx) bool { return true }
 func (c11) Rule() string {
 	return "the real queryer.MultiOpQueryer is driven directly over a recording, gated http.RoundTripper: EVERY N in 0..Nmax x EVERY m in 1..mmax (quick 0..14 x 1..5, thorough 0..26 x 1..9) x completion orders of the concurrent chunk calls (all c! orders for c <= 4 chunks, else 24 sampled permutations; the gate releases a call only after all chunk calls are pending) x {no failure | one failing chunk at every chunk position x {transport error, 500, element with errors, short array, long array}} ; plus variants in which some requests carry file uploads (sent one per call); AsyncMapReduce hooks jitter; " +
@@ -116,7 +116,7 @@ func c11List(tier string) []c11Combo {
 	return out
 }
 
-func (p c11) NumCases(c *run.Ctx) int { return len(c11List(c.Tier)) }
+func (p c11) NumCases(c *run.Ctx) int  { return len(c11List(c.Tier)) }
 func (p c11) BatchSize(c *run.Ctx) int { return 250 }
 
 func (p c11) Gen(c *run.Ctx, idx int) (json.RawMessage, error) {
